@@ -1037,3 +1037,7 @@ PROPS["C13"]["level_note"] += (" Overload sets: verification classes VOverBase/V
     "QComboBox.activated/highlighted/currentIndexChanged ambiguous; clicked/toggled/triggered/textChanged accepted) in the stream and in "
     "corpus/C13/overloaded_qt_signals.c13.req; handlers with folded / run-time string comparisons (label const-string-compare).")
 PROPS["C13"]["trusted_base"] = list(PROPS["C13"]["trusted_base"]) + ["the Rust statement of the overload rule (`spec_resolve` in c13.rs) and the overload metatypes file"]
+
+# ---- round-4 text deltas (C17 scoped names)
+PROPS["C17"]["rule"] += ' ; SCOPED NAMES as a first-class query: (gscoped "A::B::C") = get_type_scoped on the module, (cscoped "C" n) / (rscoped "C" n) = get_type_scoped / resolve_type_scoped on class C (star forms: gscoped* the listed names, cscoped* / rscoped* every class x the listed names); every table with member types (844 quick) and every fourth random table gets about 140 module-level names `A`, `A::B`, `A::B::C` with A among up to 5 classes (first, last, those declaring enums) / a module enum / a builtin / an unknown name and B among the members of A, of ancestors, of DESCENDANTS, sibling and top-level classes, A itself, module enums, builtins, nested enums of other classes, enumerators, unknown names, and (tables of at most 12 classes) 28 names from every class; exact answers `-` | (ok class|enum|prim "Qualified") vs the model, coarse `(found)` | `-` vs the specification, and the exact answers judged (kind=pred): found iff every part after the first is a nested enum DECLARED by the class before it or one of its public ancestors (never something merely visible from there), the owner of the enum found an ancestor-or-self that declares it, nothing has a third part; WHOLE PIPELINE: 608 documents (`let n: A.B = …`, `(… as A.B)`, the enumerator `A.V`; 59 also through the real binary) over two class families with nested enums (chain + sibling with a scoped enum; diamond) and A among the family and QWidget / QPushButton / QAbstractButton: accepted iff B (resp. V) is declared by A or a public ancestor, else \'undefined type\' / \'undefined reference\' (\'bare type reference\' for a member enum type used as a value); corpus/C17/scoped_names.c17.req'
+PROPS["C17"]["level_text"] += "  Scoped names (moduleGetTypeScoped / classGetTypeScoped / classResolveTypeScoped): scoped_found_only_members (a scoped name of two or more parts is found only with exactly two parts, A a class, B found by A's member look-up), scoped_found_iff_member (A::B found iff A or a public ancestor declares the nested enum B; the enum found is declared by a class A derives from)."
